@@ -25,14 +25,16 @@ EXTENDS Naturals, Sequences, FiniteSets, TLC, Json
 
 CONSTANTS MaxEdits, Dev, RawMode   \* RawMode: the honest tokens carry b64=false (+crit) in their protected header
 DevNames == {"OobNotVerified", "EmptyListVerifies", "B64FromUnprotected", "SigningInputRebuilt", "FalseNotRaised", "AnySigLength",
-             "UnprotectedAlgTrusted", "OnlyFirstSignatureChecked", "UnsuitableKeyVerifies"}
+             "UnprotectedAlgTrusted", "OnlyFirstSignatureChecked", "UnsuitableKeyVerifies", "SiblingAlgorithmVerifies"}
 ASSUME Dev \subseteq DevNames
 
 Sers == {"compact", "flattened", "general"}
 EntryPoints == {"jws", "7797", "jwt"}
 Hdrs == {"H1", "H2", "R1", "X", "N"}
 \* S3: a signature over <<H1, text_1>> made with K3, a key that does not fit the algorithm named in H1 (an EC key on another curve)
-SigsT == {"S1", "S2", "junk", "trunc", "ext", "empty", "S3"}
+\* S4: a signature over <<H1, text_1>> made with K1 itself but under a sibling algorithm of the one H1 names (another digest,
+\* the other RSA padding): as long as S1, valid under no reading of the token
+SigsT == {"S1", "S2", "junk", "trunc", "ext", "empty", "S3", "S4"}
 Unprots == {"none", "kid", "alg_same", "alg_other", "b64", "unknown"}
 
 \* payload text on the wire (strings naming octet strings)
@@ -117,6 +119,7 @@ SigOk(e) ==
   IN \/ (i # 0 /\ hmatch /\ UsedText(e) = TextOf(i) /\ key = "K1")
      \/ ("AnySigLength" \in Dev /\ e.s \in {"trunc", "ext"} /\ e.h = "H1" /\ wire.text = TextOf(1) /\ key = "K1")
      \/ ("UnsuitableKeyVerifies" \in Dev /\ e.s = "S3" /\ e.h = "H1" /\ UsedText(e) = TextOf(1) /\ key = "K3")
+     \/ ("SiblingAlgorithmVerifies" \in Dev /\ e.s = "S4" /\ e.h = "H1" /\ UsedText(e) = TextOf(1) /\ key = "K1")
 
 VerifyEntry ==
   /\ phase = "verify" /\ idx <= NE
